@@ -7,7 +7,7 @@ from .c12_translate import translate  # noqa: F401  (translated fragments, see t
 
 PID = "C12"
 TITLE = "Geometric primitives and boxes obey their algebra, with no side effects"
-LEAN_MODULES = ["Mouette.Props.C12", "Mouette.Props.C12R", "Mouette.Props.C12G", "Mouette.Props.C12T"]
+LEAN_MODULES = ["Mouette.Props.C12", "Mouette.Props.C12R", "Mouette.Props.C12G", "Mouette.Props.C12T", "Mouette.Props.C12H"]
 REQUIRED_THEOREMS = [
     "project_in_box", "project_realises_l1", "project_realises_linf", "project_realises_l2", "contained_dist_zero",
     "union_contains", "inter_is_overlap", "doIntersect_iff_overlap", "ofPoints_contains", "ofPoints_tight",
@@ -23,6 +23,8 @@ REQUIRED_THEOREMS = [
     # round 2 (Props/C12T.lean): executable turn-based models linked to the real specifications; AABB.pad
     "principalTurn_exact", "principalTurn_spec", "angleDiffTurn_exact", "angleDiffTurn_spec", "rootTurns_pow",
     "cotanPair_scale", "cotanPair_eq_angle3", "pad_clamped", "pad_superset", "padv_frame", "padAt_box",
+    # round 3 (Props/C12H.lean): histories by value - results are fresh, every other box keeps its value
+    "results_fresh", "other_boxes_unchanged", "result_and_operands_independent",
 ]
 TRUSTED = [
     "Lean 4.33.0 kernel; axioms ⊆ {propext, Classical.choice, Quot.sound}",
@@ -41,7 +43,10 @@ RULE = ("(a) histories of 4-14 operations on 3-6 caller arrays (dimension 1-6, d
         "(b) single primitive calls (cross, det_2x2, det_3x3, rotate_2d, rotate_around_axis, circumcenter, intersect_2lines2D, "
         "project_to_plane, distance_to_segment2D, triangle_area_2D, angle_3pts, signed_angle_2vec3D, cotan, principal_angle, angle_diff, roots; "
         "the last three also on EXACT inputs given in turns, multiples of pi/k, compared with the executable turn models; pad vectors given "
-        "as float / caller ndarray / Vec view, incl. negative entries) "
+        "as float / caller ndarray / Vec view, incl. negative entries); round 3: the caller's arrays as float64 / float32 / int64 / Python "
+        "lists (same values), every box and caller object the caller holds compared BY VALUE after every operation, pad right after "
+        "union/intersection (result vs operands), primitives called with int Vec / int ndarray / float ndarray / lists / tuples / float32 "
+        "where the unchanged code accepts them, the same object passed as two arguments) "
         "on random and degenerate inputs, compared with exact arithmetic and with their identities; non-trivial = distinct case with at least "
         "one box operation on an existing box returning a value (a) / a non-degenerate primitive evaluation (b)")
 
@@ -115,6 +120,37 @@ def _effect_finding(key, detail):
     return {"key": "C12/effect/" + key, "what": what, "detail": detail}
 
 
+# which representations of the vector arguments each primitive accepts on the unchanged tree (probed; Vec is the documented type)
+_PRIM_REPS = {
+    "cross": ["vecint", "ndint", "nd", "list", "intlist", "tuple", "f32"], "det2": ["vecint", "ndint", "nd", "list", "intlist", "tuple", "f32"],
+    "det3": ["vecint", "ndint", "nd", "list", "intlist", "tuple", "f32"], "area2": ["vecint", "ndint", "nd", "f32"],
+    "isect": ["vecint"], "pplane": ["vecint", "ndint", "nd"], "dseg": ["vecint", "ndint", "nd"],
+    "angle3": ["vecint", "ndint", "nd", "list", "intlist", "tuple"], "sangle": ["vecint", "ndint", "nd", "list", "intlist", "tuple"],
+    "circ": ["vecint", "ndint", "nd"], "cotan": ["vecint", "ndint", "nd", "list", "intlist", "tuple"],
+    # (float32 inputs make rotate_* compute in single precision - numpy's weak promotion of Python floats - so no f32 there)
+    "rot2": ["vecint", "ndint", "nd", "list", "intlist", "tuple"], "rotax": ["vecint", "ndint", "nd", "list", "intlist", "tuple"],
+}
+
+
+def _prim_rep(case):
+    rep = case.get("rep", "vec")
+    if rep == "vec" or rep not in _PRIM_REPS.get(case["f"], []): return "vec"
+    nv = {"rot2": 1, "rotax": 2}.get(case["f"], len(case["args"]))
+    vals = [Fraction(c) for a in case["args"][:nv] if isinstance(a, list) for c in a]
+    if rep in ("vecint", "ndint", "intlist") and not all(v.denominator == 1 for v in vals): return "vec"
+    if rep == "f32" and not all(v.denominator in (1, 2, 4, 8) and abs(v) <= 64 for v in vals): return "vec"
+    return rep
+
+
+def _hist_rep(case):
+    """representation of the caller's arrays in a box history (same values); falls back to float64 when the values do not fit"""
+    rep = case.get("rep", "float64")
+    vals = [Fraction(c) for a in case["arrs"] for c in a]
+    if rep == "int" and not all(v.denominator == 1 for v in vals): rep = "float64"
+    if rep == "float32" and not all(v.denominator in (1, 2, 4, 8) and abs(v) <= 64 for v in vals): rep = "float64"
+    return rep
+
+
 def _reset_err():
     import numpy as np
     np.seterr(**DEFAULT_ERR)
@@ -160,8 +196,16 @@ def _run_hist(case, want_oracle):
     from mouette.geometry import AABB, Vec
     _reset_err()
     findings = []
-    arrs = [np.array([float(Fraction(c)) for c in a], dtype=float) for a in case["arrs"]]
-    init = [a.copy() for a in arrs]
+    rep = _hist_rep(case)
+    if rep == "int": arrs = [np.array([int(Fraction(c)) for c in a], dtype=np.int64) for a in case["arrs"]]
+    elif rep == "float32": arrs = [np.array([float(Fraction(c)) for c in a], dtype=np.float32) for a in case["arrs"]]
+    elif rep == "list": arrs = [[float(Fraction(c)) for c in a] for a in case["arrs"]]
+    else: arrs = [np.array([float(Fraction(c)) for c in a], dtype=float) for a in case["arrs"]]
+    loose = 1e-6 if rep == "float32" else 1e-9
+
+    def valof(a):
+        return a.tobytes() if isinstance(a, np.ndarray) else repr(a)
+    init = [valof(a) for a in arrs]
     boxes = []
     recs = []
     mon = Monitor()
@@ -191,6 +235,10 @@ def _run_hist(case, want_oracle):
             mon.last_err = None
             exact = [[Fraction(float(x)) for x in a] for a in arrs]     # current values (a defective call may have changed them)
             mon.watched = [(f"caller{i}", a) for i, a in enumerate(arrs)]
+            # BY VALUE, per name the caller holds: every caller object and every box held before this operation
+            held_arrs = [valof(a) for a in arrs]
+            held_boxes = [_fmt_box(bx) for bx in boxes]
+            tgt = (o[1] % len(boxes)) if (k in ("padf", "padv", "padV") and boxes) else None
             if k == "mk":
                 mon.watched += others()
                 how, out = mon.call("AABB", AABB, (arrs[o[1]], arrs[o[2]]))
@@ -289,7 +337,7 @@ def _run_hist(case, want_oracle):
                                 diff = [abs(x - y) for x, y in zip(pr, ex)]
                                 for which, val in (("l1", sum(diff)), ("linf", max(diff)), ("l2", sum(d * d for d in diff))):
                                     d = float(b.distance(pt, which))
-                                    okd = (Fraction(d) == val) if which != "l2" else abs(d - math.sqrt(val)) <= 1e-9 * (1 + math.sqrt(val))
+                                    okd = (Fraction(d) == val) if which != "l2" else abs(d - math.sqrt(val)) <= loose * (1 + math.sqrt(val))
                                     if not okd:
                                         law(f"project/realises-distance/{which}", f"|p - project(p)| differs from distance(p,'{which}')", f"step {step}")
                                 if bool(b.contains_point(pt)) and float(b.distance(pt)) != 0.0:
@@ -310,6 +358,12 @@ def _run_hist(case, want_oracle):
                     else:
                         how, out = mon.call("AABB." + k, lambda bb=b, kk=k: getattr(bb, kk), ())
                         res = "V " + _fmt_vec(out) if all(math.isfinite(float(x)) for x in list(b.mini) + list(b.maxi)) else "undef"
+                        if want_oracle and res != "undef":
+                            # the n-th use of a used box: computed from the CURRENT bounds (after every pad so far)
+                            lo, hi = bounds(b)
+                            want = [(l + h) / 2 for l, h in zip(lo, hi)] if k == "center" else [h - l for l, h in zip(lo, hi)]
+                            if [Fraction(float(x)) for x in out] != want:
+                                law(f"{k}/current-bounds", f"{k} is not computed from the current bounds of the box (stale after an in-place change?)", f"step {step}")
             elif k == "nrm":
                 mon.watched += [(f"box{i}", bx) for i, bx in enumerate(boxes)]
                 how, out = mon.call("Vec.normalized", Vec.normalized, (arrs[o[1]],))
@@ -319,11 +373,21 @@ def _run_hist(case, want_oracle):
                     if want_oracle:
                         n2 = sum(c * c for c in exact[o[1]])
                         want = [float(c) / math.sqrt(n2) for c in exact[o[1]]]
-                        if any(abs(float(x) - w) > 1e-9 for x, w in zip(out, want)):
+                        if any(abs(float(x) - w) > loose for x, w in zip(out, want)):
                             law("normalized/value", "normalized(v) is not v/|v|", f"step {step}")
             else:
                 raise ValueError(f"unknown op {o}")
-            changed = [i for i, (a, b0) in enumerate(zip(arrs, init)) if a.tobytes() != b0.tobytes()]
+            fname = {"mk": "AABB", "inf": "AABB.infinite", "cube": "AABB.unit_cube", "ofp": "AABB.of_points", "inter": "AABB.intersection",
+                     "union": "AABB.union", "doint": "AABB.do_intersect", "padf": "AABB.pad", "padv": "AABB.pad", "padV": "AABB.pad",
+                     "contains": "AABB.contains_point", "project": "AABB.project", "dist": "AABB.distance", "empty": "AABB.is_empty",
+                     "center": "AABB.center", "span": "AABB.span", "get": "AABB.mini", "nrm": "Vec.normalized"}.get(k, k)
+            for i, was in enumerate(held_boxes):
+                if i != tgt and _fmt_box(boxes[i]) != was and not any(e[0] == f"mutates/{fname}/other-box" for e in mon.effects):
+                    mon.effects.append((f"mutates/{fname}/other-box", f"box{i} changed (by value) during {k} at step {step}: was {was}, now {_fmt_box(boxes[i])}"))
+            for i, was in enumerate(held_arrs):
+                if valof(arrs[i]) != was and not any(e[0].startswith(f"mutates/{fname}/") for e in mon.effects):
+                    mon.effects.append((f"mutates/{fname}/caller-array", f"caller object {i} changed (by value) during {k} at step {step}"))
+            changed = [i for i, (a, b0) in enumerate(zip(arrs, init)) if valof(a) != b0]
             recs.append(f"{res} ; {' '.join([str(len(changed))] + [str(i) for i in changed])} ; {_err_code(mon.last_err)}")
     finally:
         _reset_err()
@@ -338,8 +402,11 @@ def _fv(v):
     return [Fraction(c) for c in v]
 
 
+_LOOSE = [1.0]     # multiplied into the comparison tolerance (float32 inputs: single precision results)
+
+
 def _tol(scale):
-    return 1e-9 * scale + 1e-12
+    return (1e-9 * scale + 1e-12) * _LOOSE[0]
 
 
 def _run_prim(case, want_oracle):
@@ -357,8 +424,24 @@ def _run_prim(case, want_oracle):
     def law(key, what, detail=""):
         findings.append({"key": "C12/" + key, "what": what, "detail": detail})
 
+    prep = _prim_rep(case)
+    made = {}
+
     def vec(i):
-        return Vec(np.array([float(Fraction(c)) for c in A[i]], dtype=float))
+        # the same OBJECT for arguments listed in case['same']
+        src = case.get("same", {}).get(str(i), i)
+        if src in made: return made[src]
+        vals = [Fraction(c) for c in A[src]]
+        if prep == "vecint": o_ = Vec(np.array([int(v) for v in vals], dtype=np.int64))
+        elif prep == "ndint": o_ = np.array([int(v) for v in vals], dtype=np.int64)
+        elif prep == "nd": o_ = np.array([float(v) for v in vals], dtype=float)
+        elif prep == "list": o_ = [float(v) for v in vals]
+        elif prep == "intlist": o_ = [int(v) for v in vals]
+        elif prep == "tuple": o_ = tuple(float(v) for v in vals)
+        elif prep == "f32": o_ = Vec(np.array([float(v) for v in vals], dtype=np.float32))
+        else: o_ = Vec(np.array([float(v) for v in vals], dtype=float))
+        made[src] = o_
+        return o_
     obs = None
     try:
         if f in ("cross", "det2", "det3", "area2", "isect", "pplane", "dseg", "angle3", "sangle", "circ", "cotan"):
@@ -613,6 +696,14 @@ def _cmp_field(m, i):
 
 
 def compare(case, model, impl):
+    _LOOSE[0] = 1e3 if (case["t"] == "box" and _hist_rep(case) == "float32") else 1.0
+    try:
+        return _compare(case, model, impl)
+    finally:
+        _LOOSE[0] = 1.0
+
+
+def _compare(case, model, impl):
     if case["t"] == "box":
         ms, is_ = model.split(" | "), impl.split(" | ")
         if len(ms) != len(is_): return "different number of records"
@@ -682,13 +773,17 @@ def nontrivial(case, obs):
 
 def classify(case, obs):
     if case["t"] == "box":
-        ks = ["hist:dim" + str(case["dim"])]
+        ks = ["hist:dim" + str(case["dim"]), "hist-arrays-as:" + _hist_rep(case)]
+        ops_ = [o[0] for o in case["ops"]]
+        if any(a in ("inter", "union") and b.startswith("pad") for a, b in zip(ops_, ops_[1:])): ks.append("hist:pad-right-after-result")
+        if any(a.startswith("pad") and b in ("span", "center", "empty") for a, b in zip(ops_, ops_[1:])): ks.append("hist:derived-quantity-after-pad")
         for r, o in zip(obs.split(" | "), case["ops"]):
             ks.append("op:" + o[0])
             head = r.split(" ; ")[0]
             if head.startswith("err") or head in ("nobox", "undef"): ks.append(f"outcome:{o[0]}:{head}")
         return ks
-    return ["prim:" + case["f"], "prim-outcome:" + ("err" if obs.startswith("err") else obs if obs in ("degenerate", "none") else "value")]
+    return ["prim:" + case["f"], "prim-args-as:" + _prim_rep(case), "prim-same-object:" + ("yes" if case.get("same") else "no"),
+            "prim-outcome:" + ("err" if obs.startswith("err") else obs if obs in ("degenerate", "none") else "value")]
 
 
 def describe(case):
@@ -722,9 +817,26 @@ def _gen_hist(rng, maxops):
         arrs[0], arrs[1] = [G.fs(x) for x in lo], [G.fs(x) for x in hi]
     ops = []
     nb = 0
+    rep = rng.choice(["float64", "float64", "float64", "float32", "int", "list"])
+    if rep == "int":
+        arrs = [[G.fs(round(Fraction(c))) for c in a] for a in arrs]
     for _ in range(rng.randint(4, maxops)):
         r = rng.random()
         anyi = lambda: rng.randrange(na)
+        if ops and ops[-1][0] in ("inter", "union", "mk", "ofp") and rep != "int" and rng.random() < 0.35:
+            # in-place change of a RESULT, then look at every box again (operands must be unchanged, by value) - and vice versa
+            tgt = nb - 1 if rng.random() < 0.6 else rng.randrange(nb)
+            ops.append(["padf", tgt, rng.choice(["1/2", "1", "3/4"])])
+            ops.append(["get", rng.randrange(nb)])
+            continue
+        if ops and ops[-1][0] in ("padf", "padv", "padV") and rng.random() < 0.4:
+            # derived quantities of a box that was used before and has just been changed in place
+            prev = [o for o in ops[:-1] if o[0] in ("span", "center", "empty") and o[1] == ops[-1][1]]
+            if not prev: ops.insert(len(ops) - 1, [rng.choice(["span", "center"]), ops[-1][1]])
+            ops.append([rng.choice(["span", "span", "center", "empty"]), ops[-1][1]])
+            continue
+        if rep == "int" and 0.34 <= r < 0.50 and nb > 0:
+            r = 0.6      # no pad on integer boxes (in-place float update of an integer array is rejected by numpy)
         if nb == 0 or r < 0.14:
             c = rng.random()
             if c < 0.6: ops.append(["mk", rng.choice(same), rng.choice(same)] if rng.random() < 0.9 else ["mk", anyi(), anyi()])
@@ -745,7 +857,9 @@ def _gen_hist(rng, maxops):
         elif r < 0.90: ops.append([rng.choice(["center", "span"]), rng.randrange(nb)])
         elif r < 0.94: ops.append(["get", rng.randrange(nb)])
         else: ops.append(["nrm", anyi()])
-    return {"t": "box", "dim": dim, "arrs": arrs, "ops": ops}
+    c = {"t": "box", "dim": dim, "arrs": arrs, "ops": ops}
+    if rep != "float64": c["rep"] = rep
+    return c
 
 
 def _v(rng, d, kind=None):
@@ -803,6 +917,18 @@ def _gen_prim(rng):
         args = [_dy(rng), _dy(rng), str(rng.randint(1, 8))]
     c = {"t": "prim", "f": f, "args": args}
     if f in ("rot2", "rotax"): c["angle2"] = G.fs(Fraction(rng.randint(-64, 64), 8))
+    if f in _PRIM_REPS and rng.random() < 0.45:
+        rep = rng.choice(_PRIM_REPS[f])
+        nv = {"rot2": 1, "rotax": 2}.get(f, len(args))
+        if rep in ("vecint", "ndint", "intlist"):
+            # integer-valued inputs (a primitive must not truncate because its inputs are integers)
+            c["args"] = [[G.fs(round(Fraction(x))) for x in a] if i < nv else a for i, a in enumerate(args)]
+        c["rep"] = rep
+    nv = {"rot2": 1, "rotax": 2}.get(f, len(args)) if f in _PRIM_REPS else 0
+    if nv >= 2 and rng.random() < 0.06:
+        i, j = sorted(rng.sample(range(nv), 2))
+        if len(c["args"][i]) == len(c["args"][j]):
+            c["args"][j] = list(c["args"][i]); c["same"] = {str(j): i}      # the same object passed twice
     return c
 
 
